@@ -153,11 +153,20 @@ class ExternalVariableCollector(NodeVisitor):
         self.vardoc = {}
         self.provenance = {v: "closure" for v in closure_vars}
         self.funcnames = set()
+        self.root = tree
         self.visit(tree)
-        self.used -= self.funcnames
 
     def visit_FunctionDef(self, node):
         self.funcnames.add(node.name)
+        if node is not self.root:
+            # A nested def binds its name in the enclosing function
+            self.provenance[node.name] = "body"
+            self.assigned.add(node.name)
+        self.generic_visit(node)
+
+    def visit_ClassDef(self, node):
+        self.provenance[node.name] = "body"
+        self.assigned.add(node.name)
         self.generic_visit(node)
 
     def visit_Name(self, node):
@@ -629,6 +638,10 @@ class PteraTransformer(NodeTransformer):
             ),
             node,
         )
+
+    def visit_ClassDef(self, node):
+        # The body of a nested class is a scope of its own
+        return node
 
     def visit_For(self, node):
         new_body = self.generate_interactions(node.target)
